@@ -67,6 +67,7 @@ type JSGen struct {
 	inFunc int
 	inLoop int
 	labels []string
+	noIn   int // > 0 while rendering a for-loop initialiser: a bare `in` must be parenthesised there
 	// statistics
 	Ops map[string]int
 }
@@ -223,11 +224,22 @@ func (g *JSGen) expr(depth int) (string, int) {
 				if b.op == "instanceof" {
 					rhs = r.Pick([]string{"Object", "Array", "Function", "Error"})
 				}
+				if b.op == "in" && g.noIn > 0 {
+					g.count("in-in-for-init")
+					return "(" + g.Expr(depth-1, lmin) + " in " + rhs + ")", lvPrimary
+				}
 				return g.Expr(depth-1, lmin) + " " + b.op + " " + rhs, b.level
 			}
 		}
 		l := g.Expr(depth-1, lmin)
 		rr := g.Expr(depth-1, rmin)
+		if b.op == "in" && g.noIn > 0 {
+			// the grammar forbids an unparenthesised `in` anywhere in a for-loop
+			// initialiser ([~In] productions); parentheses make it valid input and
+			// the system under test has to put them back when printing
+			g.count("in-in-for-init")
+			return "(" + l + " in " + rr + ")", lvPrimary
+		}
 		// ?? may not be mixed with || and && without parentheses: our operands at
 		// level >= lvOr never expose a bare ?? (it is lower), but a || b inside ??
 		// is handled in the nullish case below.
@@ -479,7 +491,44 @@ func (g *JSGen) Stmt(depth int) string {
 		g.inLoop++
 		defer func() { g.inLoop-- }()
 		i := g.fresh("i")
-		switch r.Intn(5) {
+		switch r.Intn(6) {
+		case 5:
+			// expression (or var) initialiser with `in` in every position the
+			// printer must re-parenthesise: under comma, assignment, conditional,
+			// unary, arrow body, yield-free nesting
+			g.count("for-init-expr")
+			g.noIn++
+			key := r.Pick([]string{`"a"`, `"zz"`, "0"})
+			obj := "{a: 1}"
+			if len(g.objs) > 0 {
+				obj = r.Pick(g.objs)
+			}
+			inExpr := "(" + key + " in " + obj + ")"
+			var init string
+			switch r.Intn(8) {
+			case 0:
+				init = i + " = 0, " + g.probeCall(inExpr)
+			case 1:
+				init = g.probeCall("0") + ", " + i + " = " + inExpr + " ? 0 : 1"
+			case 2:
+				init = i + " = 0, " + g.Expr(2, lvAssign)
+			case 3:
+				init = "var " + i + " = " + inExpr + " ? 0 : 0, " + g.fresh("w") + " = !" + inExpr
+			case 4:
+				init = i + " = (" + g.Expr(1, lvAssign) + ", 0), " + g.probeCall("!"+inExpr)
+			case 5:
+				init = i + " = " + g.probeCall("() => "+inExpr) + " ? 0 : 0"
+			case 6:
+				init = i + " = " + inExpr + " && 0, " + g.Expr(2, lvAssign)
+			default:
+				init = i + " = 0, " + g.probeCall("typeof "+inExpr) + ", " + g.Expr(2, lvAssign)
+			}
+			g.noIn--
+			decl := ""
+			if !strings.HasPrefix(init, "var ") {
+				decl = "var " + i + "; "
+			}
+			return decl + fmt.Sprintf("for (%s; %s < %d; %s++) ", init, i, r.Range(0, 2), i) + g.loopBody(depth, i)
 		case 0:
 			g.count("for")
 			return fmt.Sprintf("for (var %s = 0; %s < %d; %s++) ", i, i, r.Range(0, 3), i) + g.loopBody(depth, i)
